@@ -10,8 +10,10 @@ namespace Artela
 
 abbrev Byte  := UInt8
 abbrev Bytes := List UInt8
-abbrev Word  := Nat      -- 256-bit value (uint256.Int / common.Hash as a number)
-abbrev Addr  := Nat      -- 160-bit address
+-- `Word` (256-bit value: uint256.Int / common.Hash as a number) and `Addr` (160-bit address) are *notations* for
+-- `Nat`, so that elaborated terms mention `Nat` itself and `omega` sees them.
+notation "Word" => Nat
+notation "Addr" => Nat
 
 def W256 : Nat := 2 ^ 256
 def U64  : Nat := 2 ^ 64
